@@ -98,6 +98,33 @@ def leanchecker(mods):
     return p.returncode, p.stdout.decode(errors='replace')
 
 
+SYSTEM_MODULES = ['Props/Coherence.lean', 'Props/Concrete.lean']
+
+
+def audit_system_modules(prop):
+    """Thorough tier: theorems that tie the per-property models into one system (coherence of duplicated
+    definitions, concrete instances that discharge hypotheses) are rebuilt and audited too."""
+    mods, names = [], []
+    for rel in SYSTEM_MODULES:
+        if os.path.exists(os.path.join(LEAN_DIR, 'BtcVerif', rel)):
+            mods.append('BtcVerif.' + rel[:-5].replace('/', '.'))
+            names += theorems_in('BtcVerif/' + rel)
+    if not mods:
+        return {}
+    rc, log = lake(*mods)
+    if rc != 0:
+        return 'lake build of system modules failed:\n' + log[-1200:]
+    class P:  # audit() only needs an id for the scratch file name
+        id = prop.id + '_system'
+    rc, log, res = audit(P, mods, names)
+    missing = [t for t in names if t not in res]
+    bad = {t: [a for a in axs if a not in ALLOWED_AXIOMS] for t, axs in res.items()}
+    bad = {t: a for t, a in bad.items() if a}
+    if rc != 0 or missing or bad:
+        return 'system theorem audit failed: missing=%r bad=%r\n%s' % (missing[:5], bad, log[-800:])
+    return dict(modules=mods, theorems=len(names), axioms_ok=True)
+
+
 def prepare(prop, tier='quick'):
     os.makedirs(WORK, exist_ok=True)
     out = dict(infra_error=None, broken_ties=[], audit={})
@@ -106,6 +133,11 @@ def prepare(prop, tier='quick'):
     try:
         out = _prepare(prop, out)
         if tier == 'thorough' and not out['infra_error']:
+            sysres = audit_system_modules(prop)
+            if isinstance(sysres, str):
+                out['infra_error'] = sysres
+                return out
+            out['audit']['system_theorems'] = sysres
             rc, log = leanchecker(prop.lean_targets)
             if rc != 0:
                 out['infra_error'] = 'leanchecker rejected the compiled theorems:\n' + log[-1500:]
